@@ -157,6 +157,20 @@ CHECKS['C04'] = {
     'design': 'DESIGN.md section 3 C04',
 }
 
+CHECKS['C12'] = {
+    'technique': 'machine-checked proof in Coq (retry-budget state machines of both wrappers, translated error classification) + connection-cut scenarios over loopback QUIC via the verif-hooks feature',
+    'text': ("Partial (timing and the transport are runtime). PROVED about the state machines of keep_alive/pubsub.rs and keep_alive/reqrep.rs, with the error classification re-read "
+             "from helpers.rs on every run: each outage starts with the full budget whatever the history (both wrappers); budget-many consecutive recoverable failures end in "
+             "Exhausted (too-many-retries), fewer followed by a success end Connected; Exhausted is final; an unrecoverable error is returned at once; a replier that is acknowledged "
+             "and then refused because the topic is squatted consumes the budget of the same outage and ends Exhausted; replier-already-bound and connection loss are retryable, "
+             "nothing else is. OBSERVED over loopback QUIC with the hook closing the client's connection: publisher, subscriber, requestor and replier each survive k > max_attempts "
+             "successive outages (every outage recovered) and work afterwards - messages published / requests issued after recovery are delivered / answered; a replier whose "
+             "topic is taken over reports too-many-retries instead of hanging."),
+    'note': "Hook: cargo feature verif-hooks of the selium crate (one added method, off by default). Sleeps, QUIC handshakes and timeouts are not modelled.",
+    'design': 'DESIGN.md section 3 C12',
+}
+HOOK_COMMITS = ['f262eac']
+
 ALL = ['C%02d' % i for i in range(1, 18)]
 
 PENDING_REASON = "check under construction in this session (model and harness not yet committed); it will be claimed once its check is committed"
@@ -207,7 +221,6 @@ def manifest():
     }
 
 
-HOOK_COMMITS = []
 NOT_APPLICABLE = {}
 
 if __name__ == '__main__':
